@@ -496,7 +496,11 @@ class Device(object):
         s.outq.append(pkt)
 
     def q_wrte(self, s, data, now, lat=None, kind='wrte'):
-        self._q(s, Pkt(W.A_WRTE, s.remote, s.local, data, kind=kind), now, lat)
+        # legacy adbd fills in a zero remote id on some packets; the host accepts that on purpose (allow_zeros)
+        arg0 = 0 if self.spec.get('wrte_zero') else s.remote
+        if arg0 == 0:
+            self.probe('wrte_with_zero_remote_id')
+        self._q(s, Pkt(W.A_WRTE, arg0, s.local, data, kind=kind), now, lat)
 
     def q_close(self, s, now, lat=None, zero=False):
         if s.dev_closed:
